@@ -435,7 +435,7 @@ impl<S: Read> Master<S> {
 // The synthetic tail returns the chain, so `return Ok(())` inside the slice does not type-check: the slice can only end well
 // through complete(), and then the output is what the started chain prints for exactly the rows that were fed.
 //@@ slice go.drive = src/lib.rs :: impl<S: Read> Master<S> :: fn go
-//@@ safety C03 C08 C09 C14 C16 C01
+//@@ safety C03 C08 C09 C14 C16 C01 C20
 //@@ rewrite box_as_mut stdin_call
 //@@ from-after "process.start(Titles::default())?;"
 //@@ to "process.complete()?;"
